@@ -550,4 +550,301 @@ theorem E_rec {lh lh1 : LHeap} {c x : Nat} {ch xh : LN} {key : Key} {d : Nat} {d
       intro e; rw [e, hj] at t1; omega
     rw [if_neg t1, if_neg hne', if_neg t1]
 
+
+theorem fin_leaf_eq (lh : LHeap) (lf : LN) (cur : Nat) (cn : LN) (kids' : List Nat) (d : Nat) :
+    (if cn.dye = d then some ((lh ++ [lf]).set cur { cn with kids := kids' }, (none : Option Nat))
+      else some (lh ++ [lf, { cn with dye := d, kids := kids' }], some (lh.length + 1))) =
+    some (fin (lh ++ [lf]) cur cn kids' d) := by
+  unfold fin
+  split
+  · rfl
+  · simp
+
+/-- the recursive branch when the recursive call worked in place (returned nil): nothing else changes -/
+theorem put_recnone_post {L : Nat} {lh lh1 : LHeap} {full full1 : Nat → Key} {P : Nat → Prop} (hok : LOk L lh full)
+    {cur c : Nat} {cn ch : LN} (hcur : lh[cur]? = some cn)
+    {k0 : Nat} {kt ct : Key} {pre post : List Nat} (hkids : cn.kids = pre ++ c :: post)
+    (hpre : ∀ y ∈ pre, HdLt lh k0 y) (hc : lh[c]? = some ch) (hck : ch.key = k0 :: ct)
+    {d : Nat} {data : Option Data}
+    (hlen : (k0 :: kt).length > ch.key.length) (hj : lcp ch.key (k0 :: kt) = ch.key.length)
+    (inner : PutPost L lh full P c ((k0 :: kt).drop ch.key.length) data d lh1 none full1) :
+    PutPost L lh full P cur (k0 :: kt) data d lh1 none full1 := by
+  have hcurlt := valid_lt hcur
+  have hcm : c ∈ cn.kids := by rw [hkids]; simp
+  obtain ⟨nc0, q1, _, hfc⟩ := hok.kid cur cn c hcur hcm
+  rw [hc] at q1; cases q1
+  have hbelow : full cur <+: full c := by rw [hfc]; exact List.prefix_append _ _
+  have hcurnot : ¬ (full c <+: full cur) := by
+    intro h; have := h.length_le; rw [hfc, List.length_append, hck] at this; simp at this; omega
+  have hcur1 : lh1[cur]? = some cn := by
+    rcases inner.old cur cn hcur with h | ⟨_, _, h, _⟩
+    · exact h
+    · exact absurd h hcurnot
+  have hkeep : ∀ (y : Nat) (ny : LN), lh[y]? = some ny → ∃ ny' : LN, lh1[y]? = some ny' ∧ ny'.key = ny.key := by
+    intro y ny hy
+    rcases inner.old y ny hy with h | ⟨_, _, _, n', h1, h2, _⟩
+    · exact ⟨ny, h, rfl⟩
+    · exact ⟨n', h1, h2⟩
+  obtain ⟨xh, hx1, hxk⟩ := hkeep c ch hc
+  refine ⟨inner.ok, inner.len, inner.fsame, ?_, inner.new, (fun t h => by cases h), ?_⟩
+  · intro id n hn
+    rcases inner.old id n hn with h | ⟨a1, a2, a3, a4⟩
+    · exact Or.inl h
+    · exact Or.inr ⟨a1, a2, hbelow.trans a3, a4⟩
+  · have hunt : ∀ z, z < lh.length → z ≠ cur → ¬ (full c <+: full z) → lh1[z]? = lh[z]? := by
+      intro z hz _ hnb
+      cases hzn : lh[z]? with
+      | none => rw [List.getElem?_eq_none_iff] at hzn; omega
+      | some nz =>
+        rcases inner.old z nz hzn with h | ⟨_, _, h, _⟩
+        · exact h
+        · exact absurd h hnb
+    show ∀ s : Key, s.length = (k0 :: kt).length → entR (look lh1 cur s) = _
+    apply edge_sem hok hcur hkids hpre hc hck hcur1 hkids hx1 (hxk.trans hck) hkeep hunt
+    intro s hs i i'
+    exact E_rec hc hx1 hxk hlen hj inner.sem s hs i i'
+
+/-- **the repaired `put` on logical heaps, for fixed-length keys**: it succeeds and satisfies `PutPost` -/
+theorem putL_spec {L : Nat} {P : Nat → Prop} : ∀ (fuel : Nat) (lh : LHeap) (full : Nat → Key) (cur : Nat) (key : Key)
+    (data : Option Data) (d : Nat), LOk L lh full →
+    (∀ (id : Nat) (n : LN) (c : Nat), P id → lh[id]? = some n → c ∈ n.kids → P c) → P cur →
+    (∃ cn, lh[cur]? = some cn) → (full cur).length + key.length = L → key ≠ [] → key.length < fuel →
+    ∃ lh' res full', putL fuel lh cur key data d = some (lh', res) ∧ PutPost L lh full P cur key data d lh' res full'
+  | 0, _, _, _, _, _, _, _, _, _, _, _, _, hf => by omega
+  | f + 1, lh, full, cur, key, data, d, hok, hclosed, hP, ⟨cn, hcur⟩, hlen, hne, hf => by
+    cases key with
+    | nil => exact absurd rfl hne
+    | cons k0 kt =>
+    unfold putL
+    rw [hcur]
+    simp only
+    cases scanL_cases k0 kt cn.kids 0 (hok.kidsValid hcur) with
+    | none h e =>
+      rw [e]
+      simp only
+      rw [fin_leaf_eq]
+      obtain ⟨full', hp⟩ := put_leaf_post hok hclosed hcur hP (pre := cn.kids) (post := []) (by simp) h (Or.inl rfl)
+        hlen data d
+      exact ⟨_, _, full', rfl, hp⟩
+    | before pre c post ch c0 ct hk hp h1 h2 h3 e =>
+      rw [e]
+      simp only
+      have hi : ¬ (0 + pre.length > cn.kids.length) := by rw [hk]; simp
+      rw [if_neg hi, fin_leaf_eq]
+      have hins : insAt cn.kids (0 + pre.length) lh.length = pre ++ lh.length :: c :: post := by
+        rw [hk]; unfold insAt; simp
+      rw [hins]
+      obtain ⟨full', hpp⟩ := put_leaf_post hok hclosed hcur hP hk hp
+        (Or.inr ⟨c, ch, c0, ct, post, rfl, h1, h2, h3⟩) hlen data d
+      exact ⟨_, _, full', rfl, hpp⟩
+    | hit pre c post ch ct hk hp h1 h2 e =>
+      rw [e]
+      simp only
+      rw [h1]
+      simp only
+      have hcm : c ∈ cn.kids := by rw [hk]; simp
+      obtain ⟨nc, g1, g2, g3⟩ := hok.kid cur cn c hcur hcm
+      rw [h1] at g1; cases g1
+      have hcd := hok.depth c ch h1
+      rw [g3, List.length_append] at hcd
+      have hle1 := lcp_le_left ch.key (k0 :: kt)
+      have hle2 := lcp_le_right ch.key (k0 :: kt)
+      have hPc : P c := hclosed cur cn c hP hcur hcm
+      have hi : 0 + pre.length < cn.kids.length := by rw [hk]; simp
+      have hset : cn.kids.set (0 + pre.length) = fun x => pre ++ x :: post := by
+        funext x; rw [hk]; simp
+      have hcurlt := valid_lt hcur
+      have hclt := valid_lt h1
+      by_cases t1 : lcp ch.key (k0 :: kt) = min ch.key.length (k0 :: kt).length
+      · rw [if_pos t1]
+        by_cases t2 : (k0 :: kt).length = ch.key.length
+        · rw [if_pos t2]
+          by_cases t3 : ch.dye = d
+          · -- same key, same dye: dropped
+            rw [if_pos t3]
+            refine ⟨lh, none, full, rfl, hok, Nat.le_refl _, fun _ _ => rfl, fun id n hn => Or.inl hn, ?_, (fun t h => by cases h), ?_⟩
+            · intro id n' hid hn
+              rw [List.getElem?_eq_none (by omega)] at hn; cases hn
+            · intro s hs
+              show entR (look lh cur s) = _
+              by_cases es : s = k0 :: kt
+              · rw [if_pos es, es, look_step hcur, e]
+                simp only [desc1, h1]
+                rw [if_pos t1, if_pos t2]
+                simp only [entR_ok_some, putEnt, LN.ent, t3, if_true]
+              · rw [if_neg es]
+          · -- same key, other dye: clone with the new data
+            rw [if_neg t3]
+            have hcur1 : (lh ++ [({ ch with dye := d, data := data, terminal := true } : LN)])[cur]? = some cn := by
+              rw [List.getElem?_append_left hcurlt]; exact hcur
+            rw [replaceL_fin hcur1 hi, hset]
+            have hx1 : (lh ++ [({ ch with dye := d, data := data, terminal := true } : LN)])[lh.length]? =
+                some { ch with dye := d, data := data, terminal := true } := get_app_new0 _ _ _
+            let full1 : Nat → Key := fun id => if id = lh.length then full c else full id
+            have hf1 : ∀ id, id < lh.length → full1 id = full id := by
+              intro id h; show (if id = lh.length then _ else _) = _; rw [if_neg (by omega)]
+            have m1 : Mid L lh full P (full c) d (lh ++ [({ ch with dye := d, data := data, terminal := true } : LN)]) full1 := by
+              apply mid_append hok P (full c) d _ full1 hf1
+              intro id nn hid hnn
+              have : id = lh.length := by
+                by_cases e : id = lh.length
+                · exact e
+                · rw [List.getElem?_eq_none (by simp; omega)] at hnn; cases hnn
+              subst this
+              rw [hx1] at hnn; cases hnn
+              have hfx : full1 lh.length = full c := by
+                show (if lh.length = lh.length then _ else _) = _; rw [if_pos rfl]
+              refine ⟨?_, Or.inl rfl, ?_⟩
+              · rw [hfx]; exact hok.depth c ch h1
+              · intro y hy
+                obtain ⟨ny, q1, q2, q3⟩ := hok.kid c ch y h1 hy
+                have hylt := valid_lt q1
+                exact ⟨ny, by rw [List.getElem?_append_left hylt]; exact q1, q2, by rw [hfx, hf1 y hylt, q3],
+                  fun _ => hclosed c ch y hPc h1 hy⟩
+            have hxf : full1 lh.length = full cur ++ ({ ch with dye := d, data := data, terminal := true } : LN).key := by
+              show (if lh.length = lh.length then _ else _) = _; rw [if_pos rfl, g3]
+            obtain ⟨full', hpp⟩ := put_replace_post (kt := kt) (data := data) hok hclosed hcur hP hk hp h1 h2 m1 hcur1 hx1 h2 hxf
+              (Nat.le_refl _) (fun s hs i i' => E_dup h1 hx1 t2 (by omega) t3 s hs i i')
+            exact ⟨_, _, full', rfl, hpp⟩
+        · rw [if_neg t2]
+          have t3 : (k0 :: kt).length > ch.key.length := by omega
+          rw [if_pos t3]
+          have hj : lcp ch.key (k0 :: kt) = ch.key.length := by omega
+          have hpos : 0 < ch.key.length := List.length_pos_iff.mpr g2
+          rw [hj]
+          obtain ⟨lh1, r1, full1, p1, p2⟩ := putL_spec (P := P) f lh full c ((k0 :: kt).drop ch.key.length) data d hok hclosed hPc
+            ⟨ch, h1⟩ (by rw [g3, List.length_append, List.length_drop]; omega)
+            (by intro h0; have := congrArg List.length h0; rw [List.length_drop] at this
+                simp only [List.length_nil] at this; omega)
+            (by rw [List.length_drop]; omega)
+          rw [p1]
+          cases r1 with
+          | none =>
+            simp only
+            exact ⟨lh1, none, full1, rfl, put_recnone_post hok hcur hk hp h1 h2 t3 hj p2⟩
+          | some x =>
+            simp only
+            have hcurnot : ¬ (full c <+: full cur) := by
+              intro h; have := h.length_le; rw [g3, List.length_append] at this; omega
+            have hcur1 : lh1[cur]? = some cn := by
+              rcases p2.old cur cn hcur with h | ⟨_, _, h, _⟩
+              · exact h
+              · exact absurd h hcurnot
+            rw [replaceL_fin hcur1 hi, hset]
+            obtain ⟨hxnew, n0, xh, q1, hx1, hxk, hxf⟩ := p2.root x rfl
+            rw [h1] at q1; cases q1
+            have m1 : Mid L lh full P (full c) d lh1 full1 := ⟨p2.ok, p2.len, p2.fsame, p2.old, p2.new⟩
+            obtain ⟨full', hpp⟩ := put_replace_post (kt := kt) (data := data) hok hclosed hcur hP hk hp h1 h2 m1 hcur1 hx1
+              (hxk.trans h2) (by rw [hxf, g3, hxk]) hxnew
+              (fun s hs i i' => E_rec h1 hx1 hxk t3 hj p2.sem s hs i i')
+            exact ⟨_, _, full', rfl, hpp⟩
+      · -- split
+        rw [if_neg t1]
+        have hj1 : lcp ch.key (k0 :: kt) < ch.key.length := by omega
+        have hj2 : lcp ch.key (k0 :: kt) < (k0 :: kt).length := by omega
+        obtain ⟨b, a, cbt, kat, eb, ea, hab⟩ := lcp_mismatch ch.key (k0 :: kt) hj1 hj2
+        obtain ⟨tk, htk⟩ : ∃ tk, two ((k0 :: kt).drop (lcp ch.key (k0 :: kt))) (ch.key.drop (lcp ch.key (k0 :: kt)))
+            (lh.length + 1) lh.length = some tk := by rw [ea, eb]; exact two_some _ _
+        rw [htk]
+        simp only
+        have hj0 : 0 < lcp ch.key (k0 :: kt) := scanL_at_pos e
+        generalize hjj : lcp ch.key (k0 :: kt) = j at *
+        have hlh1 : ∀ z, z < lh.length → (lh ++ [({ ch with key := ch.key.drop j } : LN), lleaf ((k0 :: kt).drop j) d data,
+            { ch with key := ch.key.take j, dye := d, terminal := false, kids := tk }])[z]? = lh[z]? :=
+          fun z hz => List.getElem?_append_left hz
+        have hcN := get_app_new0 lh ({ ch with key := ch.key.drop j } : LN) [lleaf ((k0 :: kt).drop j) d data,
+            { ch with key := ch.key.take j, dye := d, terminal := false, kids := tk }]
+        have hlf := get_app_new1 lh ({ ch with key := ch.key.drop j } : LN) (lleaf ((k0 :: kt).drop j) d data)
+            [{ ch with key := ch.key.take j, dye := d, terminal := false, kids := tk }]
+        have hTC := get_app_new2 lh ({ ch with key := ch.key.drop j } : LN) (lleaf ((k0 :: kt).drop j) d data)
+            ({ ch with key := ch.key.take j, dye := d, terminal := false, kids := tk } : LN) []
+        generalize hlh1e : lh ++ [({ ch with key := ch.key.drop j } : LN), lleaf ((k0 :: kt).drop j) d data,
+            { ch with key := ch.key.take j, dye := d, terminal := false, kids := tk }] = lh1 at *
+        have hlen1 : lh1.length = lh.length + 3 := by rw [← hlh1e]; simp
+        have hcur1 : lh1[cur]? = some cn := by rw [hlh1 cur hcurlt]; exact hcur
+        rw [replaceL_fin hcur1 hi, hset]
+        have htkmem : ∀ x ∈ tk, x = lh.length ∨ x = lh.length + 1 := by
+          intro x hx
+          rw [ea, eb] at htk
+          simp only [two, Option.some.injEq] at htk
+          rw [← htk] at hx
+          split at hx <;> simp at hx <;> omega
+        have htake : ch.key.take j = (k0 :: kt).take j := by rw [← hjj]; exact take_lcp ch.key (k0 :: kt)
+        let full1 : Nat → Key := fun id => if id = lh.length then full c else if id = lh.length + 1 then full cur ++ k0 :: kt
+          else if id = lh.length + 2 then full cur ++ ch.key.take j else full id
+        have hf1 : ∀ id, id < lh.length → full1 id = full id := by
+          intro id h
+          show (if id = lh.length then _ else if id = lh.length + 1 then _ else if id = lh.length + 2 then _ else _) = _
+          rw [if_neg (by omega), if_neg (by omega), if_neg (by omega)]
+        have hfN : full1 lh.length = full c := by
+          show (if lh.length = lh.length then _ else _) = _; rw [if_pos rfl]
+        have hfL : full1 (lh.length + 1) = full cur ++ k0 :: kt := by
+          show (if lh.length + 1 = lh.length then _ else if lh.length + 1 = lh.length + 1 then _ else _) = _
+          rw [if_neg (by omega), if_pos rfl]
+        have hfT : full1 (lh.length + 2) = full cur ++ ch.key.take j := by
+          show (if lh.length + 2 = lh.length then _ else if lh.length + 2 = lh.length + 1 then _
+            else if lh.length + 2 = lh.length + 2 then _ else _) = _
+          rw [if_neg (by omega), if_neg (by omega), if_pos rfl]
+        have m1 : Mid L lh full P (full c) d lh1 full1 := by
+          rw [← hlh1e]
+          apply mid_append hok P (full c) d _ full1 hf1
+          rw [hlh1e]
+          intro id nn hid hnn
+          have hcases : id = lh.length ∨ id = lh.length + 1 ∨ id = lh.length + 2 := by
+            by_cases e : id < lh.length + 3
+            · omega
+            · rw [List.getElem?_eq_none (by omega)] at hnn; cases hnn
+          rcases hcases with rfl | rfl | rfl
+          · rw [hcN] at hnn; cases hnn
+            refine ⟨by rw [hfN]; exact hok.depth c ch h1, Or.inr ⟨c, ch, hPc, h1, rfl⟩, ?_⟩
+            intro y hy
+            have hy' : y ∈ ch.kids := hy
+            obtain ⟨ny, q1, q2, q3⟩ := hok.kid c ch y h1 hy'
+            have hylt := valid_lt q1
+            exact ⟨ny, by rw [hlh1 y hylt]; exact q1, q2, by rw [hfN, hf1 y hylt, q3],
+              fun _ => hclosed c ch y hPc h1 hy'⟩
+          · rw [hlf] at hnn; cases hnn
+            refine ⟨by rw [hfL, List.length_append]; omega, Or.inl rfl, ?_⟩
+            intro y hy; simp [lleaf] at hy
+          · rw [hTC] at hnn; cases hnn
+            refine ⟨by rw [hfT, List.length_append, List.length_take]; omega, Or.inl rfl, ?_⟩
+            intro y hy
+            rcases htkmem y hy with rfl | rfl
+            · refine ⟨_, hcN, ?_, ?_, fun h => absurd h (Nat.lt_irrefl _)⟩
+              · show ch.key.drop j ≠ []
+                intro h0
+                have := congrArg List.length h0
+                rw [List.length_drop] at this
+                simp only [List.length_nil] at this; omega
+              · rw [hfN, hfT, g3, List.append_assoc]
+                show _ = full cur ++ (ch.key.take j ++ ch.key.drop j)
+                rw [List.take_append_drop]
+            · refine ⟨_, hlf, ?_, ?_, fun h => by omega⟩
+              · show (k0 :: kt).drop j ≠ []
+                intro h0
+                have := congrArg List.length h0
+                rw [List.length_drop] at this
+                simp only [List.length_nil] at this; omega
+              · rw [hfL, hfT, List.append_assoc, htake]
+                show _ = full cur ++ ((k0 :: kt).take j ++ (k0 :: kt).drop j)
+                rw [List.take_append_drop]
+        obtain ⟨xt, hxt⟩ : ∃ xt, ch.key.take j = k0 :: xt := by
+          rw [h2]; exact head_take hj0
+        have hsame : ∀ y ∈ ch.kids, lh1[y]? = lh[y]? ∧ ∀ t, look lh1 y t = look lh y t := by
+          intro y hy
+          obtain ⟨ny, q1, _, _⟩ := hok.kid c ch y h1 hy
+          have hylt := valid_lt q1
+          exact ⟨hlh1 y hylt, fun t => by rw [← hlh1e]; exact look_append hok _ hylt t⟩
+        obtain ⟨full', hpp⟩ := put_replace_post (kt := kt) (data := data) hok hclosed hcur hP hk hp h1 h2 m1 hcur1 hTC
+          hxt hfT (by omega) (by
+            intro s hs i i'
+            obtain ⟨r1, r2⟩ := LA_split_parent (lh' := lh1) (TC := lh.length + 2) (k := k0 :: kt) h1
+              (by rw [hjj]; exact hj0) (by rw [hjj]; exact hj1) (by rw [hjj]; exact hj2) hcN (by rw [hjj]) rfl rfl hlf
+              (by rw [hjj]; rfl) (by rw [hjj]; exact htk) hTC (by rw [hjj]) rfl hsame s hs (by omega) i i'
+            rw [r1]
+            by_cases es : s = k0 :: kt
+            · rw [if_pos es, if_pos es, r2 es, entR_ok_none, putEnt_none]; rfl
+            · rw [if_neg es, if_neg es])
+        exact ⟨_, _, full', rfl, hpp⟩
+
 end LemoProofs.CowHeapL
